@@ -94,6 +94,10 @@ type c12Fake struct {
 	failSync bool
 	// fault plan for deletes: the next Delete returns a transient error
 	failDelete bool
+	// keys whose Delete keeps failing (until the case lets a repetition succeed), and the number of Delete attempts
+	// seen per key: the harness synchronises on these counters, not on sleeps
+	failDelKeys map[string]bool
+	delAttempts map[string]int
 	// stop inside a release: the Delete of this key parks at the store until the crash drops it
 	parkDeleteKey string
 	parkedDel     chan int
@@ -174,6 +178,15 @@ func (h *c12Handle) Delete(ctx context.Context, ns, key string) error {
 			f.mu.Unlock()
 			return errC12Dead
 		}
+	}
+	f.delAttempts[key]++
+	if f.failDelKeys[key] {
+		first := c12GID() == f.opGID
+		f.mu.Unlock()
+		if first {
+			f.log.add("sdF%s", c12Idx(key))
+		}
+		return errC12Busy
 	}
 	if f.failDelete {
 		f.failDelete = false
@@ -657,10 +670,6 @@ type c12Env struct {
 // in-flight write of the same key), so a ticket may not reach the store before earlier ones are released.
 var c12Ordering bool
 
-// c12DelRetry: learned at run time — does the implementation repeat a checkpoint Delete that failed?
-// 0 unknown, 1 yes, 2 no
-var c12DelRetry int
-
 var c12StampRe = regexp.MustCompile(`"t(\d+)"`)
 
 func c12StampOf(val []byte) int {
@@ -939,6 +948,7 @@ func (e *c12Env) crash(preserved bool, fail int, pre string, dying chan string) 
 	pd := e.fake.parkedDel
 	e.fake.parkedDel = nil
 	e.fake.parkDeleteKey = ""
+	e.fake.failDelKeys = map[string]bool{}
 	e.fake.mu.Unlock()
 	for _, p := range old {
 		e.fake.complete(p, false)
@@ -1251,7 +1261,8 @@ func (e *c12Env) runCase(f []string) string {
 			r := e.runOp(c12SessID(i), func() { e.p.release(i) })
 			out = append(out, "rel"+r+" "+e.log.take())
 		case "relf":
-			// release whose checkpoint Delete returns a transient Store error
+			// release whose checkpoint Delete returns a Store error; the store keeps refusing Deletes of this key
+			// until delretry:<i>:ok.  No waiting here: the background repetition is a step of its own.
 			i, _ := strconv.Atoi(a[1])
 			if !e.p.live(i) {
 				out = append(out, "skip")
@@ -1259,18 +1270,48 @@ func (e *c12Env) runCase(f []string) string {
 			}
 			e.tick++
 			e.fake.mu.Lock()
-			e.fake.failDelete = true
+			e.fake.failDelKeys[c12SessID(i)] = true
 			e.fake.mu.Unlock()
 			r := e.runOp(c12SessID(i), func() { e.p.release(i) })
+			out = append(out, "rel"+r+" "+e.log.take())
+		case "delretry", "giveup":
+			// delretry:<i>:ok|fail — the next background repetition of the failed Delete reaches the store and
+			// succeeds / fails again (handshake on the store's attempt counter; the time is the production back-off).
+			// giveup:<i> — after the last repetition: does another one still come?
+			i, _ := strconv.Atoi(a[1])
+			key := c12SessID(i)
 			e.fake.mu.Lock()
-			e.fake.failDelete = false
+			pending := e.fake.failDelKeys[key]
+			n0 := e.fake.delAttempts[key]
+			if pending && a[0] == "delretry" && len(a) > 2 && a[2] == "ok" {
+				delete(e.fake.failDelKeys, key)
+			}
 			e.fake.mu.Unlock()
-			if c12DelRetry != 2 {
-				d := 3 * time.Second
-				if c12DelRetry == 0 {
-					d = 700 * time.Millisecond
-				}
-				gone := c12WaitFor(d, func() bool {
+			if !pending {
+				out = append(out, a[0]+" none")
+				continue
+			}
+			wait := 8 * time.Second
+			if a[0] == "giveup" {
+				wait = 3 * time.Second
+			}
+			came := c12WaitFor(wait, func() bool {
+				e.fake.mu.Lock()
+				defer e.fake.mu.Unlock()
+				return e.fake.delAttempts[key] > n0
+			})
+			switch {
+			case a[0] == "giveup" && came:
+				out = append(out, "giveup retrying")
+			case a[0] == "giveup":
+				e.fake.mu.Lock()
+				delete(e.fake.failDelKeys, key) // nothing repeats it any more
+				e.fake.mu.Unlock()
+				out = append(out, "giveup gaveup")
+			case !came:
+				out = append(out, "delretry none")
+			case len(a) > 2 && a[2] == "ok":
+				c12WaitFor(2*time.Second, func() bool { // the store fake has logged the applied Delete
 					e.log.mu.Lock()
 					defer e.log.mu.Unlock()
 					for _, l := range e.log.l {
@@ -1280,13 +1321,11 @@ func (e *c12Env) runCase(f []string) string {
 					}
 					return false
 				})
-				if gone {
-					c12DelRetry = 1
-				} else if c12DelRetry == 0 {
-					c12DelRetry = 2
-				}
+				e.tick++ // the successful delete takes a ticket in the model
+				out = append(out, "delretry "+e.log.take())
+			default:
+				out = append(out, "delretry fail")
 			}
-			out = append(out, "rel"+r+" "+e.log.take())
 		case "done":
 			t, _ := strconv.Atoi(a[1])
 			if e.finish(t) {
@@ -1415,7 +1454,7 @@ func c12Run(t *testing.T, mk func(e *c12Env) c12Proto, dpPrefix string, ns strin
 				}
 			}()
 			lg := &c12Log{}
-			e := &c12Env{log: lg, fake: &c12Fake{data: map[string][]byte{}, log: lg, opGID: -2}, sb: newC12SB(lg, dpPrefix),
+			e := &c12Env{log: lg, fake: &c12Fake{data: map[string][]byte{}, log: lg, opGID: -2, failDelKeys: map[string]bool{}, delAttempts: map[string]int{}}, sb: newC12SB(lg, dpPrefix),
 				bus: &c12Bus{log: lg}, cache: newC12Cache(), tickets: map[int]*c12Put{}, unarrived: map[int]c12Want{}, forced: map[int]bool{}, poisonLater: map[int]int{}, asc: true, used: map[int]bool{}, t0: time.Now()}
 			e.ns = ns
 			e.n4, _ = strconv.Atoi(f[1])
